@@ -2,6 +2,7 @@
 C10 — execute hands the payload's outcome to the caller and leaves the runtime alone.
 -/
 import CobaldVerif.Lemmas.RuntimeInv
+import CobaldVerif.Lemmas.Exec
 
 namespace Cobald.Props.C10
 open Cobald Cobald.Runtime
@@ -87,5 +88,39 @@ def trace : List Ev :=
    .execBegin 8 .aio 0, .execEnd 8 .value]
 example : ((run St.init trace).map (fun s => (s.phase, s.gather, s.pay 1, s.failedQuiet))) =
     some (.up, .pending, .running, []) := by decide +kernel
+
+/-! ### who waits for whom: the blocking model of `execute` (Model/Runtime/Exec.lean)
+
+The full-strength clause "every execute call returns" is false of the code and of the model: an
+asyncio payload executing a trio payload while a trio payload executes an asyncio payload block
+each other's threads (recorded finding `execute-opposite-deadlock`).  The model shows that this is
+the only way an execute call can hang. -/
+
+/-- the deadlock exists: the two opposite calls are reachable, neither payload can start … -/
+theorem exec_opposite_deadlock :
+    ∃ s, Exec.run Exec.St.init [.call 1 0 1, .call 2 1 0] = some s ∧ s.opposite = true ∧
+      Exec.step s (.begin 1) = none ∧ Exec.step s (.begin 2) = none ∧
+      Exec.step s (.finish 1) = none ∧ Exec.step s (.finish 2) = none := by
+  refine ⟨_, rfl, ?_, ?_, ?_, ?_, ?_⟩ <;> decide
+
+/-- … and it is permanent: whatever happens afterwards (further calls included), the two threads
+keep waiting for each other -/
+theorem exec_opposite_forever (es : List Exec.Ev) (s s' : Exec.St) (hnd : s.idsNodup) (ho : s.opposite = true)
+    (hr : Exec.run s es = some s') : s'.opposite = true :=
+  Exec.opposite_forever es s s' hnd ho hr
+
+/-- **every other execute call returns** (`exec_returns_partial`): as long as the two coroutine
+threads do not wait for each other, some call in flight can always make progress - its payload
+can start on its target thread, or it has started and its outcome can be handed to the caller.
+Calls go to the event-loop thread, the trio thread, or run in the caller's own thread
+(`wellTargeted`). -/
+theorem exec_returns_partial (s : Exec.St) (hnd : s.idsNodup) (hw : s.wellTargeted = true) (hne : s.calls ≠ [])
+    (hop : s.opposite = false) :
+    ∃ id s', Exec.step s (.begin id) = some s' ∨ Exec.step s (.finish id) = some s' :=
+  Exec.canProgress_enabled s hnd (Exec.progress_unless_opposite s hw hne hop)
+
+-- non-vacuity: three calls in flight (outside -> asyncio, trio -> asyncio, a threading payload run by its caller)
+example : ((Exec.run Exec.St.init [.call 1 5 0, .call 2 1 0, .call 3 6 6, .begin 3, .begin 1, .finish 1, .begin 2]).map
+    (fun s => (s.calls.map (·.id), s.opposite, s.wellTargeted, s.canProgress))) = some ([2, 3], false, true, true) := by decide
 
 end Cobald.Props.C10
